@@ -31,6 +31,7 @@ var suites = map[string]suiteFn{
 	"mem-timeoutstore": adapters.TimeoutStoreSuite(adapters.MemTimeoutStore, "C12", "mem-timeoutstore"),
 	"pure-routing":     pure.Routing,
 	"pure-shards":      pure.Shards,
+	"pure-launch":      pure.Launch,
 	"pure-ctl":         pure.Controller,
 	"pure-graph":       pure.GraphSuite,
 }
